@@ -32,10 +32,25 @@ structure Identity where
   rdns : Option (List (List Attr))     -- `ldap.ParseDN(part of raw after the first separator)`
   deriving Repr, FromJson, ToJson
 
+/-- verification capabilities a plugin can declare (`GetMetadata`, filtered by processSignature) -/
+inductive Capability
+  | trustedIdentity     -- SIGNATURE_VERIFIER.TRUSTED_IDENTITY
+  | revocationCheck     -- SIGNATURE_VERIFIER.REVOCATION_CHECK
+  deriving DecidableEq, Repr, FromJson, ToJson
+
+/-- the installed verification plugin the signature names (`io.cncf.notary.verificationPlugin`) -/
+structure Plugin where
+  capabilities : List Capability       -- what its metadata declares
+  identitySuccess : Bool               -- `VerificationResults[TRUSTED_IDENTITY].Success` of its answer
+  deriving Repr, FromJson, ToJson
+
 structure Input where
   identities : List Identity
   chain : List DN                      -- subjects of the signing chain, leaf first
   minted : List Attr                   -- ground truth: the attributes the leaf certificate was minted with
+  /-- `none`: the signature names no verification plugin. The claim of the property: unless the
+  plugin declares the trusted-identity capability, this field does not matter. -/
+  plugin : Option Plugin
   deriving Repr, FromJson, ToJson
 
 structure Obs where
@@ -156,9 +171,25 @@ def verifyIdentities (identities : List Identity) (chain : List DN) : Bool :=
         | none => false
         | some l => ms.any (fun m => isSubset m l)
 
-/-- `processSignature`: trust-store authenticity passed (the harness arranges that), no plugin
-owns the trusted-identity capability; the identity check's error overwrites the result. -/
-def run (i : Input) : Obs := { pass := verifyIdentities i.identities i.chain }
+/-- `!slices.Contains(pluginCapabilities, CapabilityTrustedIdentityVerifier)`: notation performs
+the identity check itself -/
+def nativeCheck (i : Input) : Bool :=
+  match i.plugin with
+  | none => true
+  | some p => !p.capabilities.contains .trustedIdentity
+
+/-- what a plugin that owns the check answers (`processPluginResponse`) -/
+def pluginVerdict (i : Input) : Bool :=
+  match i.plugin with
+  | none => true
+  | some p => p.identitySuccess
+
+/-- `processSignature`: trust-store authenticity passed (the harness arranges that). Unless a
+plugin owns the trusted-identity capability the native check runs and its error overwrites the
+authenticity result; otherwise the plugin's verdict does (`processPluginResponse`). -/
+def run (i : Input) : Obs :=
+  if nativeCheck i then { pass := verifyIdentities i.identities i.chain }
+  else { pass := pluginVerdict i }
 
 /-! ### specification (declarative, on attribute sets) -/
 
@@ -252,14 +283,27 @@ def coreClauses (i : Input) (o : Obs) : Clauses :=
     ("no_x509_identity_fails_closed", !(!anyWild i && !anyX509 i) || !o.pass),
     ("uninterpretable_leaf_fails_closed", !(!anyWild i && !leafValid i) || !o.pass) ]
 
-/-- the same soundness statement against the ground truth (the attributes the leaf was minted
-with), and the assumption that connects the two -/
+/-- the same soundness statement against the ground truth (the attributes the leaf was minted with) -/
 def mintedClauses (i : Input) (o : Obs) : Clauses :=
   [ ("pass_only_if_a_listed_identity_is_within_the_minted_leaf_subject",
-      !(o.pass && !anyWild i) || i.identities.any (fun id => within id (mintedAttrs i))),
-    ("trusted_rendering_shows_only_minted_attributes", wf i) ]
+      !(o.pass && !anyWild i) || i.identities.any (fun id => within id (mintedAttrs i))) ]
 
-def clauses (i : Input) (o : Obs) : Clauses := coreClauses i o ++ mintedClauses i o
+/-- every clause becomes `g -> clause` -/
+def guarded (g : Bool) (cs : Clauses) : Clauses := cs.map (fun c => (c.1, !g || c.2))
+
+/-- a plugin takes the check over only by declaring the trusted-identity capability, and then
+its verdict is the result -/
+def pluginClauses (i : Input) (o : Obs) : Clauses :=
+  [ ("plugin_owning_trusted_identity_decides", nativeCheck i || o.pass == pluginVerdict i) ]
+
+/-- the assumption that connects the rendered and the minted subject -/
+def assumptionClauses (i : Input) : Clauses :=
+  [ ("trusted_rendering_shows_only_minted_attributes", wf i) ]
+
+/-- the identity clauses apply whenever no plugin owns the trusted-identity capability - in
+particular with no plugin and with a plugin that declares the revocation capability only -/
+def clauses (i : Input) (o : Obs) : Clauses :=
+  guarded (nativeCheck i) (coreClauses i o ++ mintedClauses i o) ++ pluginClauses i o ++ assumptionClauses i
 
 def Holds (i : Input) (o : Obs) : Bool := (clauses i o).holds
 
